@@ -56,7 +56,7 @@ func init() {
 		Run: runSetStorage,
 	})
 	register(&Rule{
-		ID: "C20.no-alias-out", Prop: "C20", Floor: 20, Controls: 1,
+		ID: "C20.no-alias-out", Prop: "C20", Also: []string{"C07"}, Floor: 20, Controls: 1,
 		Doc: "an exported function whose result is a Go reference (pointer, slice, map) does not hand out payload memory of a value or type without a copy; the documented read-only accessors are tabled by symbol",
 		Run: runNoAliasOut,
 	})
@@ -591,6 +591,10 @@ func runNoAliasOut(rr *RuleRun) {
 			sum := o.retSummaryOf(fn, 0, i, nil)
 			if sum == nil {
 				rr.Assumed(key, fn.Pos(), "result not summarised")
+				continue
+			}
+			if g, pooled := sum.first(oGlobal); pooled && g.Name == "sync.Pool" {
+				rr.Violation(key, fn.Pos(), fmt.Sprintf("returns %s that aliases memory obtained from a sync.Pool (%s): the next user of the pool overwrites what the caller was given", rt.String(), sum))
 				continue
 			}
 			a, bad := sum.first(oPayload)
